@@ -325,10 +325,15 @@ def inject_send_fault(session, fail_at):
     session._send = patched
 
 
-def session_events(driver, cfg, script, send_fault=None):
-    """Run client operations with a recording policer; returns the interleaved event string."""
+def session_events(driver, cfg, script, send_fault=None, lose=None, both=False):
+    """Run client operations with a recording policer; returns the interleaved event string.
+    lose = index of the datagram whose reply is lost once (the caller retries after the TimeoutError);
+    both = the session is also given limit_rps (the explicit policer must still be the one consulted)."""
     pm = policer_mod()
     events = []
+    tmo = 0.15 if lose is not None else 3.0
+    extra = {"limit_rps": 100000} if both else {}
+    seen = {"n": 0}
     usm_agent = None
     if cfg.version == "v3" and cfg.discover:
         from . import c13
@@ -342,6 +347,9 @@ def session_events(driver, cfg, script, send_fault=None):
 
     def responder(data, idx):
         events.append("D")
+        seen["n"] += 1
+        if lose is not None and seen["n"] - 1 == lose:
+            return []
         if usm_agent is not None:
             return usm_agent(data, idx)
         req = drivers.open_request(cfg, data, strict=False, check_mac=False)
@@ -358,7 +366,7 @@ def session_events(driver, cfg, script, send_fault=None):
 
     base = rb.oid_str(BASE)
     if driver == "sync":
-        w = drivers.SyncWorld(cfg, responder, timeout=3.0, policer=Rec(), max_repetitions=3)
+        w = drivers.SyncWorld(cfg, responder, timeout=tmo, policer=Rec(), max_repetitions=3, **extra)
         try:
             s = w.session
             for op in script:
@@ -368,6 +376,16 @@ def session_events(driver, cfg, script, send_fault=None):
                     s.get(rb.oid_str(MIB[0]))
                 elif op == "get_many":
                     s.get_many([rb.oid_str(MIB[0]), rb.oid_str(MIB[1])])
+                elif op in ("getnext", "getbulk") and lose is not None:
+                    it = iter(s.getnext(base) if op == "getnext" else s.getbulk(base))
+                    fails = 0
+                    while fails < 3:
+                        try:
+                            next(it)
+                        except StopIteration:
+                            break
+                        except TimeoutError:
+                            fails += 1
                 elif op == "getnext":
                     list(s.getnext(base))
                 elif op == "getbulk":
@@ -393,6 +411,16 @@ def session_events(driver, cfg, script, send_fault=None):
                     await s.get(rb.oid_str(MIB[0]))
                 elif op == "get_many":
                     await s.get_many([rb.oid_str(MIB[0]), rb.oid_str(MIB[1])])
+                elif op in ("getnext", "getbulk") and lose is not None:
+                    it = (s.getnext(base) if op == "getnext" else s.getbulk(base)).__aiter__()
+                    fails = 0
+                    while fails < 3:
+                        try:
+                            await it.__anext__()
+                        except StopAsyncIteration:
+                            break
+                        except TimeoutError:
+                            fails += 1
                 elif op == "getnext":
                     [x async for x in s.getnext(base)]
                 elif op == "getbulk":
@@ -403,7 +431,7 @@ def session_events(driver, cfg, script, send_fault=None):
                     s._to_refresh = True
                     await s.refresh()
 
-        o, reqs, errs = drivers.run_async(cfg, responder, client, timeout=3.0, policer=Rec(), max_repetitions=3)
+        o, reqs, errs = drivers.run_async(cfg, responder, client, timeout=tmo, policer=Rec(), max_repetitions=3, **extra)
         if errs:
             raise drivers.MachineryError(str(errs[:2]))
         if o.kind != "ok":
@@ -415,7 +443,7 @@ def work_sessions(chunk):
     res = common.Result()
     for case in chunk:
         cfg = Cfg.from_desc(case["cfg"])
-        ev = session_events(case["driver"], cfg, case["script"], case.get("send_fault"))
+        ev = session_events(case["driver"], cfg, case["script"], case.get("send_fault"), case.get("lose"), case.get("both", False))
         res.count("session_scripts")
         res.count("calls", ev.count("D"))
         res.distinct()
@@ -423,7 +451,7 @@ def work_sessions(chunk):
         n = ev.count("D")
         if ev != "WD" * n or n == 0:
             res.violation(
-                "session/%s/%s/%s%s" % (case["driver"], cfg.name, "+".join(case["script"]), "/EAGAIN-on-send" if case.get("send_fault") is not None else ""),
+                "session/%s/%s/%s%s" % (case["driver"], cfg.name, "+".join(case["script"]), ("/EAGAIN-on-send" if case.get("send_fault") is not None else "") + ("/reply-lost" if case.get("lose") is not None else "") + ("/policer+limit_rps" if case.get("both") else "")),
                 "policer waits (W) and datagrams (D) interleave as %r, expected one wait before every datagram" % ev,
                 case,
             )
@@ -446,7 +474,7 @@ def replay(case):
         rels, delays, prob = run_path(case["delta"], case["t0"], case["gaps"])
         return {"releases": rels, "delays": delays, "problem": prob}
     if "script" in case:
-        return {"events": session_events(case["driver"], Cfg.from_desc(case["cfg"]), case["script"], case.get("send_fault"))}
+        return {"events": session_events(case["driver"], Cfg.from_desc(case["cfg"]), case["script"], case.get("send_fault"), case.get("lose"), case.get("both", False))}
     r = common.Result()
     work_misc([0])
     return {"misc": "re-run"}
@@ -460,7 +488,8 @@ def run(tier):
         "interval = the nanosecond interval the policer itself uses (observed: a second call at the same instant waits exactly one interval; "
         "checked to be within 1 ns of 1/rps). (a) all paths of K calls over gaps {0..2d+1, kd-1..kd+1, 10^6 d+j} for d<=5 from 4 time offsets; "
         "(b) BFS over all phase states for d in {2,5,8,13,64,1000} (complete) and to a bounded depth for d in {10^8,333333333,10^12} with invariants 0<delay<=d, slot advance >= d, phase in [0,d); "
-        "(c) constructor refusals; (d) wait()/wait_sync() sleep == delay; (e) one policer wait before every datagram of both clients."
+        "(c) constructor refusals; (d) wait()/wait_sync() sleep == delay; (e) one policer wait before every datagram of both clients: every request type, session entry with engine-id discovery, a reply lost mid-walk and the iterator asked again, "
+        "policer and limit_rps given together, and (async) EAGAIN injected at the k-th send for every k."
     )
     rec.assume(
         "monotonic clock and sequential use as stated in the property (each call is made at or after the previous release)",
@@ -496,6 +525,13 @@ def run(tier):
         for cfg in (Cfg("v3", discover=True), Cfg("v3", auth=2, priv=2, discover=True), Cfg("v3", auth=1, discover=True, key_type=2)):
             for sc in (["enter", "get"], ["enter", "refresh", "get_many"], ["enter", "getbulk"]):
                 sess.append({"driver": driver, "cfg": cfg.describe(), "script": sc})
+    # a reply lost in the middle of a walk, the caller asks the same iterator again; and policer + limit_rps given together
+    for driver in ("sync", "async"):
+        for op in ("getnext", "getbulk"):
+            for k in range(0, 4):
+                sess.append({"driver": driver, "cfg": Cfg("v2c").describe(), "script": [op, "get"], "lose": k})
+        for sc in (["get", "get_many", "get"], ["getbulk"]):
+            sess.append({"driver": driver, "cfg": Cfg("v2c").describe(), "script": sc, "both": True})
     # environment deviation (one per run): EAGAIN on the k-th send of the async client, for every k
     for cfg in (Cfg("v2c"), Cfg("v3", auth=2, priv=2, discover=True)):
         for sc, n in ((["get", "get_many", "get"], 3), (["getnext"], 8), (["getbulk", "get"], 4), (["fetch"], 3)):
